@@ -897,7 +897,9 @@ struct system_clock
   using rep                       = int64_t;
   using period                    = std::nano;
   using duration                  = std::chrono::nanoseconds;
-  using time_point                = std::chrono::time_point<system_clock, duration>;
+  // the std clock's time_point type, so that code which hands now() to an API taking
+  // std::chrono::system_clock::time_point (opentelemetry::common::SystemTimestamp) compiles unchanged
+  using time_point                = std::chrono::time_point<std::chrono::system_clock, duration>;
   static constexpr bool is_steady = false;
   static time_point now() noexcept
   {
